@@ -219,17 +219,17 @@ func (u unified) String() string {
 		fmt.Fprint(b, "@@")
 		if fromCount > 1 {
 			fmt.Fprintf(b, " -%d,%d", hunk.fromLine, fromCount)
-		} else if hunk.fromLine == 1 && fromCount == 0 {
-			// Match odd GNU diff -u behavior adding to empty file.
-			fmt.Fprintf(b, " -0,0")
+		} else if fromCount == 0 {
+			// An empty range is written as "line before it,0"
+			// (GNU diff -u; "-0,0" when adding to an empty file).
+			fmt.Fprintf(b, " -%d,0", hunk.fromLine-1)
 		} else {
 			fmt.Fprintf(b, " -%d", hunk.fromLine)
 		}
 		if toCount > 1 {
 			fmt.Fprintf(b, " +%d,%d", hunk.toLine, toCount)
-		} else if hunk.toLine == 1 && toCount == 0 {
-			// Match odd GNU diff -u behavior adding to empty file.
-			fmt.Fprintf(b, " +0,0")
+		} else if toCount == 0 {
+			fmt.Fprintf(b, " +%d,0", hunk.toLine-1)
 		} else {
 			fmt.Fprintf(b, " +%d", hunk.toLine)
 		}
